@@ -200,6 +200,9 @@ type decoder struct {
 
 func newDecoder(reader io.Reader) *decoder {
 	var handle codec.MsgpackHandle
+	// Reject unknown fields rather than skipping them, since skipping a
+	// deeply nested unknown value recurses without a depth limit.
+	handle.ErrorIfNoField = true
 	return &decoder{
 		decoder: codec.NewDecoder(reader, &handle),
 	}
